@@ -1,0 +1,138 @@
+//go:build verif
+
+// Contracts for package server, read by /verif/gocv (comment-only; no code).
+package server
+
+// ---- the gRPC stream (interface contract; any call may fail) ----
+
+//@ ghost var recvd int
+//@ ghost var sent int
+//@ ghost field hclosed(requestHandler) int
+
+// messages produced by the protobuf unmarshaller never hold a typed-nil oneof wrapper
+//@ spec fn wfReq(r *api.SessionRequest) bool = r.Request == nil || payload(r.Request) != 0
+
+//@ iface api.AppEncryption_SessionServer.Recv
+//@   modifies recvd
+//@   ensures err == nil ==> result != nil && wfReq(result) && recvd == old(recvd) + 1
+//@   ensures err != nil ==> recvd == old(recvd)
+
+//@ iface api.AppEncryption_SessionServer.Send
+//@   names m
+//@   modifies sent
+//@   ensures sent == old(sent) + 1
+
+//@ iface grpc.ServerStream.Context
+//@   pure
+//@   ensures result != nil
+
+// ---- the SDK as seen by the sidecar ----
+
+//@ iface sessionFactory.GetSession
+//@   names id
+//@   ensures (err == nil) == (result != nil)
+
+//@ iface session.Encrypt
+//@   names ctx, data
+//@   ensures err == nil ==> result != nil && result.Key != nil && result.Key.ParentKeyMeta != nil
+
+//@ iface session.Decrypt
+//@   names ctx, d
+
+//@ iface session.Close
+
+// ---- request handlers: usable in every state they can be left in; always answer ----
+
+//@ iface requestHandler.Decrypt
+//@   names ctx, r
+//@   requires r != nil ==> wfReq(r)
+//@   ensures result != nil
+
+//@ iface requestHandler.Encrypt
+//@   names ctx, r
+//@   requires r != nil ==> wfReq(r)
+//@   ensures result != nil
+
+//@ iface requestHandler.GetSession
+//@   names r
+//@   requires r != nil ==> wfReq(r)
+//@   ensures result != nil
+
+//@ iface requestHandler.Close
+//@   modifies hclosed(this)
+//@   ensures hclosed(this) == old(hclosed(this)) + 1
+
+//@ iface handlerFactory.NewHandler
+//@   ensures result != nil
+
+// the two sentinel responses are initialised once, distinct and non-nil
+//@ axiom [sentinels-initialised] UninitializedSessionResponse != nil && SessionAlreadyInitializedResponse != nil && UninitializedSessionResponse != SessionAlreadyInitializedResponse
+
+//@ func (*defaultHandler).Decrypt
+//@   facet C19
+//@   safety C19
+//@   opt no-frame
+//@   requires h != nil && (r != nil ==> wfReq(r))
+//@   ensures [C19:always-answers] result != nil
+
+//@ func (*defaultHandler).Encrypt
+//@   facet C19
+//@   safety C19
+//@   opt no-frame
+//@   requires h != nil && (r != nil ==> wfReq(r))
+//@   ensures [C19:always-answers] result != nil
+
+//@ func (*defaultHandler).GetSession
+//@   facet C19
+//@   safety C19
+//@   opt no-frame
+//@   requires h != nil && h.sessionFactory != nil && (r != nil ==> wfReq(r))
+//@   ensures [C19:always-answers] result != nil
+
+//@ func (*defaultHandler).Close
+//@   facet C19
+//@   safety C19
+//@   opt no-frame
+//@   requires h != nil
+
+//@ func fromProtobufDRR
+//@   facet C19, C18
+//@   safety C19
+//@   ensures [C19:record-well-formed] result != nil && result.Key != nil && result.Key.ParentKeyMeta != nil
+
+//@ func toProtobufDRR
+//@   facet C19, C18
+//@   safety C19
+//@   requires drr != nil && drr.Key != nil && drr.Key.ParentKeyMeta != nil
+//@   ensures result != nil
+
+//@ func newErrorResponse
+//@   facet C19
+//@   safety C19
+//@   ensures result != nil && fresh(result)
+
+// ---- protocol state machine ----
+
+//@ spec fn isDecrypt(in *api.SessionRequest) bool = in != nil && istype(in.Request, *api.SessionRequest_Decrypt)
+//@ spec fn isEncrypt(in *api.SessionRequest) bool = in != nil && istype(in.Request, *api.SessionRequest_Encrypt)
+//@ spec fn isGetSession(in *api.SessionRequest) bool = in != nil && istype(in.Request, *api.SessionRequest_GetSession)
+
+//@ func (*streamer).handleRequest
+//@   facet C19
+//@   safety C19
+//@   opt no-frame
+//@   requires s != nil && (s.handlerFactory != nil || s.sessionFactory != nil) && (in != nil ==> wfReq(in))
+//@   ensures [C19:encrypt-before-session-refused] isEncrypt(in) && old(s.handler) == nil ==> result == UninitializedSessionResponse && s.handler == nil
+//@   ensures [C19:decrypt-before-session-refused] isDecrypt(in) && old(s.handler) == nil ==> result == UninitializedSessionResponse && s.handler == nil
+//@   ensures [C19:second-get-session-refused] isGetSession(in) && old(s.handler) != nil ==> result == SessionAlreadyInitializedResponse && s.handler == old(s.handler)
+//@   ensures [C19:request-gets-a-response] isDecrypt(in) || isEncrypt(in) || isGetSession(in) ==> result != nil
+//@   ensures [C19:handler-set-only-by-get-session] s.handler != old(s.handler) ==> isGetSession(in) && old(s.handler) == nil && s.handler != nil
+
+//@ func (*streamer).Stream
+//@   facet C19
+//@   safety C19
+//@   opt no-frame
+//@   requires s != nil && stream != nil && (s.handlerFactory != nil || s.sessionFactory != nil)
+//@   loop 1 invariant [C19:one-response-per-request] sent - old(sent) == recvd - old(recvd)
+//@   ensures [C19:one-response-per-request] sent - old(sent) == recvd - old(recvd)
+//@   ensures [C19:handler-closed-on-exit] forall h requestHandler :: h == s.handler && h != nil ==> hclosed(h) == old(hclosed(h)) + 1
